@@ -72,6 +72,26 @@ h_precalc_secs(void)
 	WITNESS();
 }
 
+/* (1b) the totals the cascade starts from, over the whole range of the
+ * calendar (two instants of 1601..4095 are up to 7.9e10 s apart) */
+void
+h_totals(void)
+{
+	ND(i64, vdv);
+	ND(u8, vunit);
+	struct dt_dtdur_s dur;
+
+	ASSUME(vdv > -(1LL << 40) && vdv < (1LL << 40));
+	ASSUME(vunit == DT_DURS || vunit == DT_DURM || vunit == DT_DURH);
+	memset(&dur, 0, sizeof(dur));
+	dur.durtyp = (dt_dtdurtyp_t)vunit;
+	dur.dv = vdv;
+	CHECK((i64)__strf_tot_secs(dur) == (vunit == DT_DURS ? vdv : vunit == DT_DURM ? vdv * 60 : vdv * 3600),
+	      "total seconds of a duration, not truncated");
+	CHECK(__strf_tot_corr(dur) == 0, "no leap correction without the tai flag");
+	WITNESS();
+}
+
 /* (2) years / months / days from a ymd duration, with a time part */
 void
 h_precalc_ymd(void)
